@@ -59,4 +59,14 @@ def withWatchAt (l : List LaunchEv) (i : Nat) : List LaunchEv := l.take i ++ [.w
 
 def launchRun (evs : List LaunchEv) : LaunchSt := evs.foldl launchStep {}
 
+/-! ### cancel of a running task: from the registry to the release -/
+
+/-- `Popen.cancel_task` once the task is taken out of the executor's registry (from here on the watcher no longer collects
+    it): the launcher signals the process group - which may be gone already (`groupGone`: no group leader, reaped a moment
+    ago) -, the process is waited for, the release is published.  With `guarded` (read from the source: the signal is sent
+    under a handler for OSError) a missing process group is logged; otherwise the exception ends cancel_task before the
+    release.  Returns the number of releases published. -/
+def cancelReleases (guarded groupGone : Bool) : Nat :=
+  if groupGone && !guarded then 0 else 1
+
 end RPVerif.WatchQueue
